@@ -1,14 +1,16 @@
 #!/bin/bash
-# seed_matrix.sh [seed-name...] : runs, for every seeded change, the quick check of the property it
-# breaks (plus any extra checks given as NAME:ID1,ID2) against a scratch worktree with the change applied.
-# Output: one "SEED ..." line per (seed, check) in /tmp/seedmatrix.log
-cd /verif
+# seed_matrix.sh [seed-name[:ID1,ID2]...] : runs, for every seeded change, the quick check of the property it
+# breaks (or the checks given after the colon) against a scratch worktree of /repo with the change applied.
+# Works from any copy of the verification tree (e.g. a `vp run` snapshot): everything is relative to this script.
+# Output: one "SEED ..." line per (seed, check) in $SEED_LOG (default /tmp/seedmatrix.log)
+export VERIF_DIR="$(cd "$(dirname "$0")/.." && pwd)"
+cd "$VERIF_DIR"
 LOG=${SEED_LOG:-/tmp/seedmatrix.log}
-if [ $# -eq 0 ]; then set -- $(ls seeded | sort); fi
+if [ $# -eq 0 ]; then set -- $(ls seeded | grep -v '\.log$' | sort); fi
 for spec in "$@"; do
   name=${spec%%:*}; ids=${spec#*:}
   if [ "$ids" = "$spec" ]; then ids=${name%%-*}; fi
   ids=$(echo "$ids" | tr ',' ' ')
-  bash tools/try_seed.sh /verif/seeded/$name/patch.diff "$name" $ids 2>&1 | grep '^SEED' >> "$LOG"
+  bash tools/try_seed.sh "$VERIF_DIR/seeded/$name/patch.diff" "$name" $ids 2>&1 | grep '^SEED' >> "$LOG"
 done
 echo MATRIXDONE >> "$LOG"
